@@ -66,7 +66,7 @@ Definition NTRACE : nat := 6.
 Definition NLOG : nat := 4.
 Definition NTABLE : nat := 3.
 (* metadata keys *)
-Definition NMETA : nat := 10.
+Definition NMETA : nat := 12.
 Definition M_EVENT_COUNT := 0.
 Definition M_ROI_X := 1.
 Definition M_ROI_Y := 2.
@@ -103,7 +103,26 @@ Definition forced_dtype (f : Z) : option sdtype :=
 
 (* ---- datasets ------------------------------------------------------------- *)
 Definition sds := (sdtype * list fval)%type.                 (* 1-d dataset *)
-Record nd := { nd_chunk : Z; nd_shape : list Z; nd_rows : list row }.
+(* dtype of an n-d dataset or of an array given to the writer: float64 (stores
+   what it is given), float32 (exact for the values |v| <= 2^24 the check uses)
+   or an integer type; [sc] is the unit of the row entries (8 for features
+   whose values are multiples of 1/8, 1 for integer data) *)
+Inductive ndt := NDRaw | NDF32 (sc : Z) | NDInt (bytes lo hi sc : Z).
+Definition ndt_size (t : ndt) : Z :=
+  match t with NDRaw => 8 | NDF32 _ => 4 | NDInt b _ _ _ => b end.
+(* HDF5's conversion on assignment (integers: truncation, saturation) *)
+Definition cast_nd (t : ndt) (v : Z) : Z :=
+  match t with
+  | NDInt _ lo hi sc => sc * clampZ lo hi (Z.quot v sc)
+  | _ => v
+  end.
+Definition fits_nd (t : ndt) (v : Z) : bool :=
+  match t with
+  | NDRaw => true
+  | NDF32 sc => Z.abs v <=? sc * 2 ^ 24
+  | NDInt _ _ _ _ => cast_nd t v =? v
+  end.
+Record nd := { nd_chunk : Z; nd_shape : list Z; nd_dt : ndt; nd_rows : list row }.
 Record logd := { lg_width : Z; lg_lines : list row }.
 Definition table := (list Z * list (list Z))%type.            (* column names, rows *)
 
@@ -188,7 +207,7 @@ Fixpoint chunk_loop (n : nat) (ii cs offset : Z) (data rows : list row) : list r
 
 (* n-d branch *)
 Definition write_nd (csb : Z) (old : option nd) (shape : list Z) (itemsize : Z)
-           (data : list row) : nd :=
+           (dt0 : ndt) (data : list row) : nd :=
   let '(cs, shp, rows0, offset) :=
     match old with
     | None => (best_chunk csb shape itemsize, shape, repeat [] (length data), 0)
@@ -203,7 +222,8 @@ Definition write_nd (csb : Z) (old : option nd) (shape : list Z) (itemsize : Z)
     else let start_e := num_chunks * cs in
          let stop_e := start_e + num_remain in
          set_slice rows1 (offset + start_e) (offset + stop_e) (slice data start_e stop_e) in
-  {| nd_chunk := cs; nd_shape := shp; nd_rows := rows2 |}.
+  {| nd_chunk := cs; nd_shape := shp;
+     nd_dt := match old with Some d => nd_dt d | None => dt0 end; nd_rows := rows2 |}.
 
 (* ---- write_ragged ----------------------------------------------------------- *)
 Fixpoint ragged_loop (curid : Z) (data : list row) (grp : list (Z * row)) : list (Z * row) :=
@@ -242,15 +262,15 @@ Inductive op :=
 | OConfig (csb : Z)           (* writer.CHUNK_SIZE_BYTES = csb *)
 | OScalar (f : Z) (isint : bool) (data : list fval)
                               (* store_feature(scalar feature incl. index, 1-d array) *)
-| OImage (f : Z) (isbool : bool) (shape : list Z) (itemsize : Z) (data : list row)
+| OImage (f : Z) (isbool : bool) (shape : list Z) (ddt : ndt) (data : list row)
                               (* store_feature(image, image_bg, mask, user-shaped feature) *)
 | OContour (data : list row)  (* store_feature("contour", list of arrays) *)
-| OTrace (shape : list Z) (itemsize : Z) (data : list (Z * list row))
+| OTrace (shape : list Z) (ddt : ndt) (data : list (Z * list row))
                               (* store_feature("trace", {name: 2-d array}) *)
 | OLog (name : Z) (lines : list row)
 | OTable (name : Z) (cols : list Z) (rows : list (list Z))
 | OMeta (kvs : list (Z * Z))
-| OArr (f : Z) (isbool : bool) (shape dshape : list Z) (itemsize : Z) (flat : list Z).
+| OArr (f : Z) (isbool : bool) (shape dshape : list Z) (ddt : ndt) (flat : list Z).
                               (* store_feature(image-like or user-shaped feature, array of
                                  shape dshape given by its C-order values, shape=shape) *)
 
@@ -271,13 +291,33 @@ Definition store_scalar (w : wr) (s : file) (f : Z) (isint : bool) (data : list 
     (with_scal s (aset f (write_scalar (alookup f sc) (forced_dtype f) isint data) sc), false)
   else (with_scal s sc, true).        (* ValueError("Empty data object") *)
 
+(* the dtype store_feature imposes on image-like features: uint8
+   (write_image_grayscale), float32 (write_image_float32) *)
+Definition forced_nd (f : Z) : option ndt :=
+  if (f =? F_IMAGE) || (f =? F_IMAGE_BG) || (f =? F_MASK) || (f =? F_QPI_OAH)
+  then Some (NDInt 1 0 255 1)
+  else if (f =? F_QPI_AMP) || (f =? F_QPI_PHA) then Some (NDF32 8)
+  else None.
+
+(* the array as handed to write_ndarray (boolean masks become 0/255) and the
+   dtype of the dataset that receives it *)
+Definition image_data (f : Z) (isbool : bool) (data : list row) : list row :=
+  if (f =? F_MASK) && isbool then map (map (fun b => b * 255)) data else data.
+Definition image_dt (old : option nd) (f : Z) (ddt : ndt) : ndt :=
+  match old with
+  | Some d => nd_dt d
+  | None => match forced_nd f with Some t => t | None => ddt end
+  end.
+
 Definition store_image (w : wr) (s : file) (f : Z) (isbool : bool) (shape : list Z)
-           (itemsize : Z) (data : list row) : file * bool :=
+           (ddt : ndt) (data : list row) : file * bool :=
   let ndl := if w_mode w =? 1 then adel f (f_nd s) else f_nd s in
   (* write_image_grayscale: boolean masks become 0/255 *)
-  let data' := if (f =? F_MASK) && isbool then map (map (fun b => b * 255)) data else data in
+  let data' := image_data f isbool data in
+  let dt := image_dt (alookup f ndl) f ddt in
   if nonempty data then
-    (with_nd s (aset f (write_nd (w_csb w) (alookup f ndl) shape itemsize data') ndl), false)
+    (with_nd s (aset f (write_nd (w_csb w) (alookup f ndl) shape (ndt_size ddt) dt
+                                 (map (map (cast_nd dt)) data')) ndl), false)
   else (with_nd s ndl, true).
 
 (* the events of an array as store_feature sees them.
@@ -324,19 +364,24 @@ Definition store_contour (w : wr) (s : file) (data : list row) : wr * file :=
   ({| w_mode := w_mode w; w_gs := gs'; w_csb := w_csb w |}, with_contour s (Some grp)).
 
 (* for tr_name in data.keys(): write_ndarray(...); the first empty array raises *)
-Fixpoint trace_loop (csb : Z) (shape : list Z) (itemsize : Z) (data : list (Z * list row))
+Definition trace_dt (old : option nd) (ddt : ndt) : ndt :=
+  match old with Some d => nd_dt d | None => ddt end.
+
+Fixpoint trace_loop (csb : Z) (shape : list Z) (ddt : ndt) (data : list (Z * list row))
          (grp : option (list (Z * nd))) : option (list (Z * nd)) * bool :=
   match data with
   | [] => (grp, false)
   | (tr, rows) :: r =>
       let g := match grp with Some g => g | None => [] end in     (* require_group *)
       if nonempty rows then
-        trace_loop csb shape itemsize r
-                   (Some (aset tr (write_nd csb (alookup tr g) shape itemsize rows) g))
+        let dt := trace_dt (alookup tr g) ddt in
+        trace_loop csb shape ddt r
+                   (Some (aset tr (write_nd csb (alookup tr g) shape (ndt_size ddt) dt
+                                            (map (map (cast_nd dt)) rows)) g))
       else (Some g, true)
   end.
 
-Definition store_trace (w : wr) (s : file) (shape : list Z) (itemsize : Z)
+Definition store_trace (w : wr) (s : file) (shape : list Z) (ddt : ndt)
            (data : list (Z * list row)) : file * bool :=
   let grp0 :=
     match f_trace s with
@@ -345,7 +390,7 @@ Definition store_trace (w : wr) (s : file) (shape : list Z) (itemsize : Z)
                 else Some g
     | None => None
     end in
-  let '(grp, err) := trace_loop (w_csb w) shape itemsize data grp0 in
+  let '(grp, err) := trace_loop (w_csb w) shape ddt data grp0 in
   (with_trace s grp, err).
 
 Definition store_table (s : file) (name : Z) (cols : list Z) (rows : list (list Z))
@@ -382,11 +427,21 @@ Definition first_trace (g : list (Z * nd)) : option nd :=
   | [] => None
   end.
 
+(* the event count: the length of the alphabetically first feature; for a
+   non-empty trace group that of its alphabetically first trace *)
+Definition event_count_of (s : file) (f0 n0 : Z) : Z :=
+  if (f0 =? F_TRACE) && negb (n0 =? 0)
+  then match f_trace s with
+       | Some g => match first_trace g with Some d => zlen (nd_rows d) | None => n0 end
+       | None => n0
+       end
+  else n0.
+
 Definition rectify_metadata (s : file) : file :=
   match feats_sorted s with
   | [] => s
-  | (_, n0) :: _ =>
-      let a1 := aset M_EVENT_COUNT n0 (f_attrs s) in
+  | (f0, n0) :: _ =>
+      let a1 := aset M_EVENT_COUNT (event_count_of s f0 n0) (f_attrs s) in
       (* empty features (groups) are ignored below *)
       let feats := map fst (filter (fun fn => negb (snd fn =? 0)) (feats_sorted s)) in
       let has f := existsb (Z.eqb f) feats in
@@ -430,18 +485,18 @@ Definition step (s : state) (o : op) : state * bool :=
   | OConfig c =>
       ({| st_w := {| w_mode := w_mode w; w_gs := w_gs w; w_csb := c |}; st_f := f |}, false)
   | OScalar ft isint data => set_file s (store_scalar w f ft isint data)
-  | OImage ft isbool shape isz data => set_file s (store_image w f ft isbool shape isz data)
+  | OImage ft isbool shape ddt data => set_file s (store_image w f ft isbool shape ddt data)
   | OContour data =>
       let '(w', f') := store_contour w f data in ({| st_w := w'; st_f := f' |}, false)
-  | OTrace shape isz data => set_file s (store_trace w f shape isz data)
+  | OTrace shape ddt data => set_file s (store_trace w f shape ddt data)
   | OLog name lines =>
       ({| st_w := w;
           st_f := with_logs f (aset name (write_text (w_mode w) (alookup name (f_logs f)) lines)
                                     (f_logs f)) |}, false)
   | OTable name cols rows => set_file s (store_table f name cols rows)
   | OMeta kvs => ({| st_w := w; st_f := store_meta f kvs |}, false)
-  | OArr ft isbool shape dshape isz flat =>
-      set_file s (store_image w f ft isbool (arr_shape ft shape dshape) isz
+  | OArr ft isbool shape dshape ddt flat =>
+      set_file s (store_image w f ft isbool (arr_shape ft shape dshape) ddt
                               (arr_events ft shape dshape flat))
   end.
 
@@ -625,6 +680,39 @@ Definition log_ok (s : state) (name : Z) (lines : list row) : bool :=
        | None => true
        end.
 
+(* every value of an n-d write is representable in the dtype of the dataset
+   that receives it (known finding C01-nd-dtype-frozen when the dtype was
+   frozen by an earlier array; for the forced uint8 / float32 features: the
+   values lie in the documented type) *)
+Definition rows_fit (t : ndt) (rows : list row) : bool := forallb (forallb (fits_nd t)) rows.
+
+Definition image_ok (s : state) (f : Z) (isbool : bool) (ddt : ndt) (data : list row) : bool :=
+  let ndl := if w_mode (st_w s) =? 1 then adel f (f_nd (st_f s)) else f_nd (st_f s) in
+  rows_fit (image_dt (alookup f ndl) f ddt) (image_data f isbool data).
+
+Fixpoint trace_ok (csb : Z) (shape : list Z) (ddt : ndt) (data : list (Z * list row))
+         (grp : option (list (Z * nd))) : bool :=
+  match data with
+  | [] => true
+  | (tr, rows) :: r =>
+      let g := match grp with Some g => g | None => [] end in
+      if nonempty rows then
+        let dt := trace_dt (alookup tr g) ddt in
+        rows_fit dt rows
+        && trace_ok csb shape ddt r
+                    (Some (aset tr (write_nd csb (alookup tr g) shape (ndt_size ddt) dt
+                                             (map (map (cast_nd dt)) rows)) g))
+      else true
+  end.
+
+Definition trace_grp0 (s : state) (data : list (Z * list row)) : option (list (Z * nd)) :=
+  match f_trace (st_f s) with
+  | Some g => if w_mode (st_w s) =? 1
+              then Some (fold_left (fun g' tr => adel tr g') (map fst data) g)
+              else Some g
+  | None => None
+  end.
+
 Fixpoint hist_ok (s : state) (ops : list op) : bool :=
   match ops with
   | [] => true
@@ -632,11 +720,33 @@ Fixpoint hist_ok (s : state) (ops : list op) : bool :=
       (match o with
        | OScalar f isint data => scalar_ok s f isint data
        | OLog name lines => log_ok s name lines
+       | OImage f isbool _ ddt data => image_ok s f isbool ddt data
+       | OArr f isbool shape dshape ddt flat =>
+           image_ok s f isbool ddt (arr_events f shape dshape flat)
+       | OTrace shape ddt data =>
+           trace_ok (w_csb (st_w s)) shape ddt data (trace_grp0 s data)
        | _ => true
        end) && hist_ok (fst (step s o)) r
   end.
 
 (* ---- interface used by the correspondence check (harness/c01.py) ---------------- *)
+(* dtype codes of arrays and n-d datasets *)
+Definition ndt_of (c : Z) : ndt :=
+  if c =? 1 then NDInt 1 0 255 1
+  else if c =? 2 then NDInt 2 (- 2 ^ 15) (2 ^ 15 - 1) 1
+  else if c =? 3 then NDInt 4 (- 2 ^ 31) (2 ^ 31 - 1) 1
+  else if c =? 4 then NDInt 8 (- 2 ^ 63) (2 ^ 63 - 1) 1
+  else if c =? 5 then NDF32 8
+  else if c =? 6 then NDInt 8 (- 2 ^ 63) (2 ^ 63 - 1) 8
+  else NDRaw.
+Definition ndt_code (t : ndt) : Z :=
+  match t with
+  | NDRaw => 0
+  | NDF32 _ => 5
+  | NDInt b _ _ sc => if b =? 1 then 1 else if b =? 2 then 2 else if b =? 4 then 3
+                      else if sc =? 8 then 6 else 4
+  end.
+
 Definition enc_opt {A} (enc : A -> list Z) (o : option A) : list Z :=
   match o with Some a => 1 :: enc a | None => [0] end.
 
@@ -660,12 +770,12 @@ Definition enc_feature (s : file) (f : Z) : list Z :=
                                   (rd_contour s)) (f_contour s)
   else if f =? F_TRACE then
     enc_opt (fun g : list (Z * nd) =>
-               flat_map (fun t => enc_opt (fun _ : nd => enc_digest (rd_trace s t)) (alookup t g))
+               flat_map (fun t => enc_opt (fun d : nd => ndt_code (nd_dt d) :: enc_digest (rd_trace s t)) (alookup t g))
                         (zrange NTRACE)) (f_trace s)
   else match alookup f (f_scal s) with
        | Some (dt, v) => 1 :: dt_code dt :: zlen v :: flat_map (fun x => [fst x; snd x]) v
        | None => match alookup f (f_nd s) with
-                 | Some _ => 2 :: enc_digest (rd_nd s f)
+                 | Some d => 2 :: ndt_code (nd_dt d) :: enc_digest (rd_nd s f)
                  | None => [0]
                  end
        end.
@@ -686,6 +796,8 @@ Definition gen_px (kind seed i j : Z) : Z :=
   else if kind =? 1 then (if base mod 3 =? 0 then 1 else 0)
   else if kind =? 2 then (base * 13) mod 2201 - 200
   else if kind =? 3 then base mod 81 - 16
+  else if kind =? 5 then (base * 131) mod 200001 - 100000
+  else if kind =? 6 then 8 * (base mod 50)
   else (if base mod 3 =? 0 then 1 + seed mod 255 else 0).
 Definition gen_rows (kind seed a b len : Z) : list row :=
   map (fun i => map (fun j => gen_px kind seed (a + Z.of_nat i) (Z.of_nat j))
